@@ -7,6 +7,7 @@ SRC=$1; shift
 for ID in "$@"; do
   for K in 1 2 3 4; do
     [ -f $SRC/$ID/_seed/patch$K.diff ] || continue
+    [ -n "${ONLYK:-}" ] && [ "$K" != "$ONLYK" ] && continue
     res=$(SEEDSRC=$SRC tools/confirm_seed.sh $ID $K 2>&1 | grep RESULT)
     echo "$res"
     case "$res" in
